@@ -84,6 +84,11 @@ class FaultStore:
         self.park_unidle = False
         self.parked: list[dict] = []
         self.park_seq = 0
+        # with `release_at_end` everything parked for a run is let through the moment a terminal status of that run has been
+        # stored (the late requests complete right after the end, before any timer), and nothing is parked for it afterwards
+        self.release_at_end = False
+        self.ended: set[str] = set()
+        self.late: list[dict] = []  # what was still parked when the terminal status of its run was stored
 
     def __getattr__(self, name: str) -> Any:
         return getattr(self._inner, name)
@@ -136,11 +141,13 @@ class FaultStore:
             if before is not None and before[0] == row.run_id:
                 self.transitions.append((row.run_id, before[1], row.status, method, info))
 
-    async def _park(self, kind: str, what: Any) -> None:
+    async def _park(self, kind: str, what: Any, run_ids: list) -> None:
+        if self.release_at_end and any(r in self.ended for r in run_ids):
+            return
         req = _REQUEST.get()
         self.park_seq += 1
-        item = {"id": self.park_seq, "kind": kind, "what": what, "ev": asyncio.Event(),
-                "hold": bool(req and req.get("hold")) and kind == "lookup", "req": req and req.get("n")}
+        item = {"id": self.park_seq, "kind": kind, "what": what, "ev": asyncio.Event(), "run_ids": list(run_ids),
+                "hold": bool(req and req.get("hold")) and kind == "lookup", "req": req and req.get("n"), "run": req and req.get("run")}
         self.parked.append(item)
         try:
             await item["ev"].wait()
@@ -158,7 +165,7 @@ class FaultStore:
         if self.park_lookups and _REQUEST.get() is not None and getattr(query, "handler_id_in", None) is not None:
             # a read that takes time: the answer is the state at the time of the read
             snapshot = [r.model_copy() for r in rows]
-            await self._park("lookup", [getattr(r, "status", None) for r in snapshot])
+            await self._park("lookup", [getattr(r, "status", None) for r in snapshot], [getattr(r, "run_id", None) for r in snapshot])
             return snapshot
         return rows
 
@@ -166,11 +173,17 @@ class FaultStore:
         unidle = "idle_since" in kw and kw["idle_since"] is None
         info = (run_id, kw.get("status"), "idle_since" in kw, unidle)
         if self.park_unidle and unidle and _REQUEST.get() is not None:
-            await self._park("unidle", run_id)
+            await self._park("unidle", run_id, [run_id])
         self._gate("uhs", info)
         before = self._before(run_id)
         await self._inner.update_handler_status(run_id, **kw)
         self._note(run_id, before, "uhs", info)
+        if kw.get("status") in TERMINAL:
+            self.ended.add(run_id)
+            if self.release_at_end:
+                for it in [it for it in self.parked if run_id in it["run_ids"]]:
+                    self.late.append({"run_id": run_id, "queued": it["kind"], "of_request": it["req"], "held": it["hold"]})
+                    self.release(it)
 
     async def append_event(self, run_id: str, event: Any) -> None:
         types = list(getattr(event, "types", None) or []) + [event.type]
@@ -774,6 +787,8 @@ def run_case(case: dict) -> CaseResult:
     state: dict[str, Any] = {"st": None, "h": None, "done": False, "quiet": 0, "stuck": False, "fs": None, "nreq": 0, "inflight": []}
     horizon = 300.0
     race = bool(case.get("race"))
+    # virtual seconds between the end of the run and the completion of the requests that are still in flight (0: at once)
+    late_delay = float(case.get("late_delay") or 0)
 
     def hook_factory(loop: VLoop):
         def hook() -> bool:
@@ -839,6 +854,7 @@ def run_case(case: dict) -> CaseResult:
         if race:
             fs.park_lookups = True
             fs.park_unidle = True
+            fs.release_at_end = not late_delay
             state["fs"] = fs
         st = Stack.build(case.get("store", "memory"), idle_timeout=idle_timeout, persistence_backoff=backoff, store=fs, db_path=dbp)
         try:
@@ -899,8 +915,10 @@ def run_case(case: dict) -> CaseResult:
             if race:
                 # the run has ended: the requests that are still in flight (their lookup was answered from the state
                 # before the end, or their delivery is queued behind the slow store) now complete, oldest first
-                res.late_requests = [dict(r) for r in state["inflight"]] + [{"queued": it["kind"], "of_request": it["req"]} for it in fs.parked
-                                                                             if it["req"] not in [r["n"] for r in state["inflight"]]]
+                res.late_requests = [{k: v for k, v in d.items() if k != "run_id"} for d in fs.late] + \
+                    [{"queued": it["kind"], "of_request": it["req"], "held": it["hold"]} for it in fs.parked]
+                if late_delay and fs.parked:
+                    await asyncio.sleep(late_delay)
                 for _round in range(200):
                     if not fs.parked:
                         break
@@ -1028,14 +1046,21 @@ def run_history(case: dict) -> list[CaseResult]:
     _ENTERED.append(entered)
     live._ACTIVE.append(master)
     active: list[int] = []  # indices of runs whose handler is being awaited
-    state: dict[str, Any] = {"st": None, "quiet": {}, "stuck": set()}
+    state: dict[str, Any] = {"st": None, "quiet": {}, "stuck": set(), "fs": None, "nreq": 0, "inflight": []}
     horizon = 300.0
+    race = bool(case.get("race"))
 
-    async def _swallow(i: int, coro: Any) -> None:
+    async def _swallow(i: int, coro: Any, req: dict | None = None) -> None:
+        if req is not None:
+            _REQUEST.set(req)
+            state["inflight"].append(req)
         try:
             await coro
         except Exception as e:
             results[i].notes.append(f"external op failed: {type(e).__name__}")
+        finally:
+            if req is not None and req in state["inflight"]:
+                state["inflight"].remove(req)
 
     def hook_factory(loop: VLoop):
         def hook() -> bool:
@@ -1050,6 +1075,9 @@ def run_history(case: dict) -> list[CaseResult]:
                     if ext.get("after_quiet", 0) <= q and ext["op"] in ("send", "cancel"):
                         options.append(("ext", (i, j)))
                 state["quiet"][i] = q + 1
+            fs_ = state["fs"]
+            if fs_ is not None:
+                options += [("unpark", (-1, it)) for it in fs_.parked if not it["hold"]]
             near = any((not h._cancelled) and h._when <= loop.time() + horizon for h in loop._scheduled)  # type: ignore[attr-defined]
             if not options:
                 todo = [i for i in active if i not in state["stuck"]]
@@ -1066,15 +1094,20 @@ def run_history(case: dict) -> list[CaseResult]:
             if kind == "time":
                 return False
             i = arg[0]
+            if kind == "unpark":
+                fs_.release(arg[1])
+                return True
             if kind == "gate":
                 runs[i].waiting.remove(arg[1])
                 runs[i].gates[arg[1]].set()
                 return True
             ext = runs[i].externals.pop(arg[1])
+            state["nreq"] += 1
+            req = {"n": state["nreq"], "op": ext["op"], "hold": ext.get("hold") == "end", "run": i} if race else None
             if ext["op"] == "cancel":
-                loop.create_task(_swallow(i, st.cancel(f"h{i}")))
+                loop.create_task(_swallow(i, st.cancel(f"h{i}"), req))
             else:
-                loop.create_task(_swallow(i, st.send(f"h{i}", ET.mk(ext["ty"], runs[i].fresh(), ext.get("k")), step=ext.get("step"))))
+                loop.create_task(_swallow(i, st.send(f"h{i}", ET.mk(ext["ty"], runs[i].fresh(), ext.get("k")), step=ext.get("step")), req))
             return True
 
         return hook
@@ -1085,6 +1118,11 @@ def run_history(case: dict) -> list[CaseResult]:
         fs.by_run = True
         plan = HistoryPlan(items)
         fs.plan = {"upd": plan.upd, "uhs": plan.uhs}
+        if race:
+            fs.park_lookups = True
+            fs.park_unidle = True
+            fs.release_at_end = True
+            state["fs"] = fs
         st = Stack.build(case.get("store", "memory"), idle_timeout=idle_timeout, persistence_backoff=backoff, store=fs, db_path=dbp)
         try:
             for i, it in enumerate(items):
@@ -1140,6 +1178,17 @@ def run_history(case: dict) -> list[CaseResult]:
                         active.remove(i)
                 for _ in range(30):
                     await asyncio.sleep(0)
+                if race:
+                    # this run has ended: its requests that are still in flight complete now (the other runs go on)
+                    res.late_requests = [{k: v for k, v in d.items() if k != "run_id"} for d in fs.late if d["run_id"] == hd.run_id] + \
+                        [{"queued": it["kind"], "of_request": it["req"], "held": it["hold"]} for it in fs.parked if it["run"] == i]
+                    for _round in range(200):
+                        mine = [it for it in fs.parked if it["run"] == i]
+                        if not mine:
+                            break
+                        fs.release(mine[0])
+                        for _ in range(30):
+                            await asyncio.sleep(0)
                 res.record = _snap(await st.handler(f"h{i}"))
                 res.events = [e.event.type for e in await st.events(hd.run_id)]
 
@@ -1161,7 +1210,10 @@ def run_history(case: dict) -> list[CaseResult]:
                 rid = res.run_id
                 res.writes = [w for w in fs.writes if rid is not None and w[1][0] == rid]
                 res.status_trace = [t for t in fs.status_trace if t[0] == rid]
+                res.transitions = [t for t in fs.transitions if t[0] == rid]
                 res.early_terminal_events = [t for t in fs.early_terminal_events if t[0] == rid]
+            for it in list(fs.parked):
+                fs.release(it)
             try:
                 if st.idle is not None:
                     for t in list(st.idle._background_tasks):
@@ -1180,7 +1232,7 @@ def run_history(case: dict) -> list[CaseResult]:
     finally:
         live._ACTIVE.pop()
         _ENTERED.pop()
-    replay_case = {k: case.get(k) for k in ("store", "idle_timeout", "backoff", "seed", "history")}
+    replay_case = {k: case.get(k) for k in ("store", "idle_timeout", "backoff", "seed", "history") + (("race",) if race else ())}
     replay_case["actions"] = list(master.trace.actions)
     for res in results:
         res.entered = [(r, n) for (r, n, _e) in entered if r == res.run_id]
